@@ -58,13 +58,15 @@ def run(ctx):
         argvs.append([drv, "--cases", cp, "--out", tp, "--random", str(150 if quick else 4000), "--salt", str(k),
                       "--current", tp + ".current",
                       # the concurrency family runs in four shards (different random values each)
-                      "--conc", str((6 if quick else 60) if k < 4 else 0)])
+                      "--conc", str((6 if quick else 60) if k < 4 else 0),
+                      # the first-use family (fresh processes) in four other shards
+                      "--firstuse", str((60 if quick else 600) if 4 <= k < 8 else 0)])
     outs = ctx.run_parallel(argvs, ok_codes=(0, 2))
     # a driver that died of a fatal runtime error (out of memory is not recoverable in-process) shows the
     # real decoder killing the process on the input named in its side file
     alive = []
     for k, o in enumerate(outs):
-        if "c08: conc_encodes=" in o:
+        if "c08: firstuse_events=" in o:
             alive.append(k)
             continue
         if "HARNESS-ERROR" in o or "fatal error" not in o:
@@ -85,6 +87,7 @@ def run(ctx):
     nenc = sum(int(o.split("encode_events=")[1].split()[0]) for o in outs)
     nfail = sum(int(o.split("fail_events=")[1].split()[0]) for o in outs)
     nconc = sum(int(o.split("conc_encodes=")[1].split()[0]) for o in outs)
+    nfirst = sum(int(o.split("firstuse_events=")[1].split()[0]) for o in outs)
     ntypes = int(outs[0].split("types=")[1].split()[0])
     # 3. every event judged against the reference recomputed in TLA+
     events, tags = judge_traces(ctx, "RlpTrace", traces, timeout=1500)
@@ -145,6 +148,7 @@ def run(ctx):
     require(walk_ok > 100 and walk_err > 100 and split_ok > 100, "stream/split paths not exercised", ctx=ctx)
     require(huge > 10, "no input declaring a size of 4+ bytes", ctx=ctx)
     require(dest_ok > 5000, "decodes into non-zero destinations hardly succeeded (%d)" % dest_ok, ctx=ctx)
+    require(nfirst > 1000, "first-use family hardly ran (%d events)" % nfirst, ctx=ctx)
     require(nconc > 10000, "concurrency family hardly ran (%d concurrent encodes)" % nconc, ctx=ctx)
     require(failed_encodes > 50 and after_fail > 50, "encode sequences (failed encode, then ordinary encode) hardly occurred: %d, %d"
             % (failed_encodes, after_fail), ctx=ctx)
@@ -172,6 +176,7 @@ def run(ctx):
         "failed_encodes": failed_encodes,
         "accepting_decodes_into_nonzero_destinations": dest_ok,
         "concurrent_encode_decode_rounds": nconc,
+        "first_use_events": nfirst,
         "encodes_directly_after_a_failed_encode": after_fail,
         "accepted_per_type": acc,
         "failed_judgements": tags,
@@ -183,7 +188,8 @@ def run(ctx):
                        "bytes read and allocation.  Every decode is repeated into a destination that holds a larger value of the type / defaults and "
                        "into the same destination a second time (the result is a function of the bytes alone).  Every encode is repeated by value, inside an interface{} list, through Encode(io.Writer) and "
                        "EncodeToReader; a concurrency family (8 goroutines x rounds per type, GOMAXPROCS = all cores and 1) codes different "
-                       "values of one type at the same time and every result that differs from the sequential one is judged like any other.",
+                       "values of one type at the same time and every result that differs from the sequential one is judged like any other; a first-use "
+                       "family runs fresh processes in which 8 goroutines released together make the very first use of a type.",
     }
     finish(ctx, "exploration", coverage, [
         "'never allocates beyond the input size' is read as alloc <= 65536 + 3072*len(input) bytes summed over the %d DecodeBytes calls of one input (runtime.MemStats.TotalAlloc)" % ntypes,
